@@ -382,6 +382,8 @@ func (ex *Exec) havocModifies(st *State, c *FuncContract, env *Env, fr *Frame) {
 func (ex *Exec) havocTargets(st *State, mods []ModTarget, env *Env, fr *Frame, owner string) {
 	for _, mt := range mods {
 		switch {
+		case mt.Fresh:
+			// handled by the caller (loop heads); at call sites objects younger than the call do not exist yet
 		case mt.All:
 			ws := newWriteSet()
 			ws.setAll("modifies * of " + owner)
